@@ -8,7 +8,7 @@ from typing import Dict, List
 from .. import anchors as A
 from ..flow import ANY_EXC, CANCEL
 from ..model import AnalysisError, ClassInfo, FuncInfo, Project, call_name, kwarg, walk_local
-from ..paths import PState, PathAnalysis, run_paths, subst_text
+from ..paths import PState, PathAnalysis, is_benign_call, run_paths, subst_text
 from ..report import Report
 from ..roles import incoming_send_calls, stream_roles
 from ..summaries import contained, fallible_except_contained
@@ -259,17 +259,43 @@ def check(P: Project, R: Report) -> None:
                     elif ".stream(" in v:
                         created[nme] = "__aexit__"
     R.need(len(created) >= 6, f"only {len(created)} resource attributes found (7 confirmed by hand): {sorted(created)}")
-    ctxt = ast.unparse(cleanup.node)
+    # read the cleanup through its local abbreviations: `ctx = getattr(self, "_x", None)` / `ctx = self._x` … `ctx.aclose()`
+    import copy as _copy
+
+    cl_node = _copy.deepcopy(cleanup.node)
+    lv_ = {}
+    for s_ in walk_local(cl_node):
+        if isinstance(s_, ast.Assign) and len(s_.targets) == 1 and isinstance(s_.targets[0], ast.Name):
+            lv_.setdefault(s_.targets[0].id, []).append(s_.value)
+    abbrev = {}
+    for nm_, vals_ in lv_.items():
+        if len(vals_) != 1:
+            continue
+        v_ = vals_[0]
+        if isinstance(v_, ast.Call) and call_name(v_) == "getattr" and len(v_.args) >= 2 and ast.unparse(v_.args[0]) == "self" and isinstance(v_.args[1], ast.Constant):
+            abbrev[nm_] = f"self.{v_.args[1].value}"
+        elif isinstance(v_, ast.Attribute) and ast.unparse(v_.value) == "self":
+            abbrev[nm_] = f"self.{v_.attr}"
+    ctxt = ast.unparse(cl_node)
+    for nm_, full_ in abbrev.items():
+        ctxt = re.sub(rf"(?<![\w.]){re.escape(nm_)}(?![\w])", full_, ctxt)
 
     def released_in_loop(nme: str, rel_m: str) -> bool:
-        """`for x in (self.<nme>, …): x.<rel>()` (and `await x` for tasks)."""
+        """`for x in (self.<nme>, …): x.<rel>()` (and `await x` for tasks); also the loop over attribute *names*:
+        `for a in ("<nme>", …): x = getattr(self, a, None); x.<rel>()`."""
         for l in walk_local(cleanup.node):
             if isinstance(l, (ast.For, ast.AsyncFor)) and isinstance(l.target, ast.Name):
                 it = ast.unparse(l.iter)
                 if f"self.{nme}" in it or f"'{nme}'" in it:
                     body = "\n".join(ast.unparse(x) for x in l.body)
-                    if f"{l.target.id}.{rel_m}(" in body and (rel_m != "cancel" or f"await {l.target.id}" in body):
-                        return True
+                    holders = [l.target.id]
+                    for s_ in walk_local(l):
+                        if isinstance(s_, ast.Assign) and len(s_.targets) == 1 and isinstance(s_.targets[0], ast.Name) and isinstance(s_.value, ast.Call) and call_name(s_.value) == "getattr" \
+                                and len(s_.value.args) >= 2 and ast.unparse(s_.value.args[0]) == "self" and ast.unparse(s_.value.args[1]) == l.target.id:
+                            holders.append(s_.targets[0].id)
+                    for h_ in holders:
+                        if f"{h_}.{rel_m}(" in body and (rel_m != "cancel" or f"await {h_}" in body):
+                            return True
         return False
 
     for nme, rel_m in sorted(created.items()):
@@ -280,8 +306,24 @@ def check(P: Project, R: Report) -> None:
         R.ob("R4", f"self.{nme} is released by {rel_m}() in the cleanup routine", ok, cleanup.where, f"no `self.{nme}.{rel_m}(...)` in _cleanup", sample=f"R4 {nme} → {rel_m}")
     # ordering: the pending per-request futures are cancelled before any task is joined — the sender task may be
     # waiting on one of them and (justifiably) absorbs the CancelledError of that wait, so joining it first never returns
-    fut_cancel = [n.lineno for n in walk_local(cleanup.node) if isinstance(n, (ast.For,)) and "_pending_requests" in ast.unparse(n.iter) and any(isinstance(c, ast.Call) and call_name(c).endswith(".cancel") for c in walk_local(n))]
-    joins = [n.lineno for n in walk_local(cleanup.node) if isinstance(n, ast.Await) and ("_task" in ast.unparse(n.value) or (isinstance(n.value, ast.Name) and any(isinstance(l, ast.For) and isinstance(l.target, ast.Name) and l.target.id == n.value.id and "_task" in ast.unparse(l.iter) for l in walk_local(cleanup.node))))]
+    def _expand(t: str) -> str:
+        for nm_, full_ in abbrev.items():
+            t = re.sub(rf"(?<![\w.]){re.escape(nm_)}(?![\w])", full_, t)
+        return t
+
+    fut_cancel = [n.lineno for n in walk_local(cleanup.node) if isinstance(n, (ast.For,)) and "_pending_requests" in _expand(ast.unparse(n.iter)) and any(isinstance(c, ast.Call) and call_name(c).endswith(".cancel") for c in walk_local(n))]
+    def _task_holder(name: str) -> bool:
+        """is `name` a task taken from a loop over the task attributes (directly, or by getattr(self, <attribute name>))?"""
+        for l in walk_local(cleanup.node):
+            if isinstance(l, ast.For) and isinstance(l.target, ast.Name) and "_task" in ast.unparse(l.iter):
+                if l.target.id == name:
+                    return True
+                for s_ in walk_local(l):
+                    if isinstance(s_, ast.Assign) and len(s_.targets) == 1 and isinstance(s_.targets[0], ast.Name) and s_.targets[0].id == name and isinstance(s_.value, ast.Call) and call_name(s_.value) == "getattr" and len(s_.value.args) >= 2 and ast.unparse(s_.value.args[1]) == l.target.id:
+                        return True
+        return False
+
+    joins = [n.lineno for n in walk_local(cleanup.node) if isinstance(n, ast.Await) and ("_task" in _expand(ast.unparse(n.value)) or (isinstance(n.value, ast.Name) and _task_holder(n.value.id)))]
     R.ob("R4", "pending request futures are cancelled before the tasks are joined", bool(fut_cancel) and bool(joins) and min(fut_cancel) < min(joins), cleanup.where,
          f"futures cancelled at line {fut_cancel[:1]}, first task join at line {joins[:1]}: a sender blocked in the 202 wait absorbs its cancellation (it is the future's), so joining it before cancelling the futures blocks the shutdown forever")
     ax = meths["__aexit__"]
@@ -318,6 +360,13 @@ def check(P: Project, R: Report) -> None:
     R.fn(pf.fq)
     loop = [n for n in walk_local(pf.node) if isinstance(n, ast.AsyncFor)][0]
     acc = [s for s in walk_local(loop) if isinstance(s, ast.AugAssign) and isinstance(s.op, ast.Add) and isinstance(s.target, ast.Name)]
+    if not acc:
+        # no textual accumulation here; if the chunk is handed to other code (`parser.feed(chunk)`, `parts.append(chunk)`)
+        # the accumulation happens in a shape this rule cannot read: undecided, not a finding
+        cv = loop.target.id if isinstance(loop.target, ast.Name) else None
+        handed = [c for c in walk_local(loop) if isinstance(c, ast.Call) and cv and any(isinstance(a, ast.Name) and a.id == cv for a in c.args) and not is_benign_call(c)]
+        if handed:
+            raise AnalysisError(f"the event-stream reader hands each chunk to `{ast.unparse(handed[0].func)}` — chunk accumulation is written in a shape this rule cannot read (expected `buffer += chunk` in the read loop)")
     R.ob("R6", "the reader accumulates chunks into a buffer", bool(acc), pf.where, "no `buffer += chunk`: a line cut by a chunk boundary is lost")
     R.need(acc, "anchor: the reader does not accumulate a buffer")
     buf = acc[0].target.id
